@@ -23,7 +23,7 @@ import os
 import re
 
 HERE = os.path.dirname(os.path.abspath(__file__))
-KNOWN_PATH = os.path.join(HERE, 'known_fns.json')
+KNOWN_PATH = os.environ.get('MRL_KNOWN_FNS') or os.path.join(HERE, 'known_fns.json')
 MAX_DEPTH = 4
 MAX_BLOCKS = 400
 
@@ -2106,6 +2106,85 @@ def desugar_bool_then_some(j):
     return n
 
 
+def desugar_enum_eq(j):
+    """`x == Enum::Variant` (derived PartialEq on a field-less enum of the crate) written out as the test of x's
+    discriminant it is: `if discr(x) == k { true } else { false }`, each arm continued with the caller's use of the
+    boolean. A two-variant private enum replacing a `bool` result is a standard clean-up; the rules ask under which
+    variant something happens, which a call to a derived `eq` does not say. Returns the count."""
+    import re as _re
+    if j.get('crate') != 'mrecordlog':
+        return 0
+    enums = {}
+    for a in j.get('adts', []):
+        if a.get('kind') == 'enum' and a.get('variants') and all(not v.get('fields') for v in a['variants']):
+            enums[strip_crate(a['path'])] = {v['name']: int(v['discr']) if v.get('discr') is not None else v['idx'] for v in a['variants']}
+    n = 0
+    for b in j.get('instances', []) + j.get('poly', []):
+        blocks = b['blocks']
+        defs = {}
+        for blk in blocks:
+            if blk.get('cleanup'):
+                continue
+            for st in blk['stmts']:
+                if st.get('k') == 'assign' and not st['place']['p']:
+                    defs.setdefault(st['place']['l'], []).append(st['rv'])
+        def side(op):
+            if op.get('k') not in ('copy', 'move') or op['place']['p']:
+                return None
+            ds = defs.get(op['place']['l'], [])
+            if len(ds) != 1 or ds[0].get('k') != 'ref':
+                return None
+            P = ds[0]['place']
+            if len(P['p']) == 1 and P['p'][0]['k'] == 'deref':
+                cd = defs.get(P['l'], [])
+                if len(cd) == 1 and cd[0].get('k') == 'use' and cd[0]['op'].get('k') == 'const':
+                    for tx in cd[0]['op'].get('promoted_texts') or []:
+                        if tx.startswith('variant:'):
+                            return ('variant', tx[len('variant:'):].split('::')[-1])
+            if not P['p']:
+                ad = defs.get(P['l'], [])
+                if len(ad) == 1 and ad[0].get('k') == 'agg' and ad[0].get('is_enum') and not ad[0].get('ops'):
+                    return ('variant', ad[0].get('variant'))
+            return ('place', P)
+        for bi in range(len(blocks)):
+            blk = blocks[bi]
+            t = blk['term']
+            if blk.get('cleanup') or t.get('k') != 'call' or t.get('dest') is None or t.get('target') is None or t['dest']['p']:
+                continue
+            m = _re.match(r'^<(.+) as std::cmp::PartialEq>::(eq|ne)$', strip_crate((t.get('callee') or {}).get('orig_name') or (t.get('callee') or {}).get('name') or ''))
+            if not m or m.group(1) not in enums or len(t.get('args', [])) != 2:
+                continue
+            a0, a1 = side(t['args'][0]), side(t['args'][1])
+            if a0 is None or a1 is None or {a0[0], a1[0]} != {'variant', 'place'}:
+                continue
+            var = a0[1] if a0[0] == 'variant' else a1[1]
+            P = a0[1] if a0[0] == 'place' else a1[1]
+            if var not in enums[m.group(1)]:
+                continue
+            k_ = enums[m.group(1)][var]
+            eq = m.group(2) == 'eq'
+            span, exp = t.get('span'), t.get('exp')
+            b['locals'].append({'ty': 'isize', 'adt': None})
+            d = len(b['locals']) - 1
+            def cbool(v):
+                return {'k': 'const', 'ty': 'bool', 'bits': '1' if v else '0', 'size': 1, 'text': 'true' if v else 'false'}
+            tb = {'cleanup': False, 'stmts': [{'k': 'assign', 'place': copy.deepcopy(t['dest']), 'rv': {'k': 'use', 'op': cbool(eq)}, 'span': span, 'exp': exp, 'inl': 'enum_eq'}],
+                  'term': {'k': 'goto', 'target': t['target'], 'span': span, 'exp': exp}}
+            fb = {'cleanup': False, 'stmts': [{'k': 'assign', 'place': copy.deepcopy(t['dest']), 'rv': {'k': 'use', 'op': cbool(not eq)}, 'span': span, 'exp': exp, 'inl': 'enum_eq'}],
+                  'term': {'k': 'goto', 'target': t['target'], 'span': span, 'exp': exp}}
+            blocks.append(tb)
+            ti = len(blocks) - 1
+            blocks.append(fb)
+            fi = len(blocks) - 1
+            blk['stmts'].append({'k': 'assign', 'place': {'l': d, 'p': []}, 'rv': {'k': 'discr', 'place': copy.deepcopy(P), 'adt': m.group(1), 'ty': 'isize'}, 'span': span, 'exp': exp, 'inl': 'enum_eq'})
+            blk['term'] = {'k': 'switch', 'discr': {'k': 'move', 'place': {'l': d, 'p': []}}, 'targets': [[k_, ti]], 'otherwise': fi, 'span': span, 'exp': exp, 'inl': 'enum_eq'}
+            dl = t['dest']['l']
+            _specialise_block(b, tb, ('bool', eq), None, dl)
+            _specialise_block(b, fb, ('bool', not eq), None, dl)
+            n += 1
+    return n
+
+
 def _reads_local(blk, x):
     """block blk reads local x (whole or projected) in a statement rvalue or its terminator operands"""
     hit = [False]
@@ -2352,6 +2431,182 @@ def _rename_tail_defs(b, region):
                 _rename_place_local(blocks[y]['term'], x, x2)
 
 
+def split_webs(j, only_inlined=True):
+    """A-WEB (web splitting). After inlining, one caller local often carries the result of a helper that returned at
+    several places (`_r = Ok(None)` here, `_r = Ok(parse(..))` there), and return specialisation has already sent each
+    of those definitions down its own copy of the continuation. The local still has several definitions, so any
+    question asked of "the" definition of the value read at a use has no answer. Where every read of such a local is
+    reached by the definitions of exactly one group, and the groups do not overlap, each group gets a local of its own
+    (classic web / live-range splitting; nothing is moved, duplicated or deleted). Only whole-local assignments of
+    locals that are never borrowed, never assigned through a projection and are not parameters / the return slot.
+    Returns the number of locals split."""
+    n_split = 0
+    for b in list(j.get('instances', [])) + list(j.get('poly', [])):
+        blocks = b['blocks']
+        if only_inlined and not any(st.get('inl') for blk in blocks for st in blk['stmts']) and not any(blk['term'].get('inl') for blk in blocks):
+            continue
+        nb = len(blocks)
+        live = [not blk.get('cleanup') for blk in blocks]
+        # candidate locals
+        defs = {}       # l -> [(block, stmt index or 'term')]
+        banned = set(range(0, b.get('arg_count', 0) + 1))
+        for bi, blk in enumerate(blocks):
+            if not live[bi]:
+                continue
+            for si, st in enumerate(blk['stmts']):
+                if st.get('k') == 'assign':
+                    pl = st['place']
+                    if pl['p']:
+                        banned.add(pl['l'])
+                    else:
+                        defs.setdefault(pl['l'], []).append((bi, si))
+                def chk(pl_, c_):
+                    if c_ == 'ref':
+                        banned.add(pl_['l'])
+                _walk_places(st.get('rv') if st.get('k') == 'assign' else st, chk)
+            t = blk['term']
+            if t.get('dest') is not None:
+                if t['dest']['p']:
+                    banned.add(t['dest']['l'])
+                else:
+                    defs.setdefault(t['dest']['l'], []).append((bi, 'term'))
+            if t['k'] == 'drop' and t.get('place') is not None:
+                pass
+        cands = [l for (l, ds) in defs.items() if len(ds) >= 2 and l not in banned]
+        if not cands:
+            continue
+        # locals that are never read: a `_d = discr(_x)` whose _d is dead (a drop-flag test already resolved) is not a use of _x
+        read_locals = set()
+        for bi, blk in enumerate(blocks):
+            if not live[bi]:
+                continue
+            for st in blk['stmts']:
+                def rl(pl_, c_, st=st):
+                    if not (st.get('k') == 'assign' and pl_ is st['place'] and not pl_['p']):
+                        read_locals.add(pl_['l'])
+                _walk_places(st, rl)
+            t = blk['term']
+            def rlt(pl_, c_, t=t):
+                if pl_ is not t.get('dest') or pl_['p']:
+                    read_locals.add(pl_['l'])
+            _walk_places(t, rlt)
+        succs = [(_succs(blk) if live[i] else []) for i, blk in enumerate(blocks)]
+        for x in cands:
+            dlist = defs[x]
+            didx = {d: k for k, d in enumerate(dlist)}
+            # per block: gen (last def in block), kill
+            last_def = {}
+            for (bi, si) in dlist:
+                cur = last_def.get(bi)
+                if cur is None or cur[1] == 'term' and False:
+                    last_def[bi] = (bi, si)
+                else:
+                    # keep the later one ('term' is last)
+                    a = cur[1]
+                    if si == 'term' or (a != 'term' and si > a):
+                        last_def[bi] = (bi, si)
+            IN = [set() for _ in range(nb)]
+            OUT = [set() for _ in range(nb)]
+            work = list(range(nb))
+            preds = [[] for _ in range(nb)]
+            for i in range(nb):
+                for y in succs[i]:
+                    if 0 <= y < nb:
+                        preds[y].append(i)
+            while work:
+                i = work.pop()
+                if not live[i]:
+                    continue
+                inn = set()
+                for p_ in preds[i]:
+                    inn |= OUT[p_]
+                IN[i] = inn
+                out = {didx[last_def[i]]} if i in last_def else set(inn)
+                # a call terminator's def only holds on its normal successor; approximated as holding on all (sound for grouping)
+                if out != OUT[i]:
+                    OUT[i] = out
+                    for y in succs[i]:
+                        if 0 <= y < nb:
+                            work.append(y)
+            # uses with their reaching sets
+            parent = list(range(len(dlist)))
+            def find(a):
+                while parent[a] != a:
+                    parent[a] = parent[parent[a]]
+                    a = parent[a]
+                return a
+            uses = []       # (container, reaching set)
+            ok = True
+            for bi, blk in enumerate(blocks):
+                if not live[bi]:
+                    continue
+                cur = set(IN[bi])
+                for si, st in enumerate(blk['stmts']):
+                    hit = []
+                    def rd(pl_, c_, hit=hit, st=st):
+                        if pl_['l'] == x and not (c_ == 'def' and pl_ is st.get('place')):
+                            hit.append(pl_)
+                    _walk_places(st, rd)
+                    # the assigned place of this very statement is a def, not a use
+                    hit = [h for h in hit if not (st.get('k') == 'assign' and h is st['place'])]
+                    if hit and st.get('k') == 'assign' and st['rv'].get('k') == 'discr' and not st['place']['p'] and st['place']['l'] not in read_locals:
+                        hit = []        # dead discriminant read
+                    if hit:
+                        if not cur:
+                            ok = False
+                        uses.append((hit, frozenset(cur)))
+                    if st.get('k') == 'assign' and st['place']['l'] == x and not st['place']['p']:
+                        cur = {didx[(bi, si)]}
+                t = blk['term']
+                hit = []
+                def rdt(pl_, c_, hit=hit, t=t):
+                    if pl_['l'] == x and pl_ is not t.get('dest'):
+                        hit.append(pl_)
+                _walk_places(t, rdt)
+                if hit:
+                    if not cur:
+                        ok = False
+                    uses.append((hit, frozenset(cur)))
+                if not ok:
+                    break
+            if not ok:
+                continue
+            for (_h, rs) in uses:
+                rs = sorted(rs)
+                for a in rs[1:]:
+                    ra, rb = find(rs[0]), find(a)
+                    if ra != rb:
+                        parent[rb] = ra
+            groups = {}
+            for k in range(len(dlist)):
+                groups.setdefault(find(k), []).append(k)
+            if len(groups) < 2:
+                continue
+            # rename every group but the first to a fresh local
+            roots = sorted(groups)
+            fresh = {roots[0]: x}
+            for r in roots[1:]:
+                b['locals'].append(copy.deepcopy(b['locals'][x]))
+                fresh[r] = len(b['locals']) - 1
+            for k, (bi, si) in enumerate(dlist):
+                nl = fresh[find(k)]
+                if nl == x:
+                    continue
+                if si == 'term':
+                    blocks[bi]['term']['dest']['l'] = nl
+                else:
+                    blocks[bi]['stmts'][si]['place']['l'] = nl
+            for (hit, rs) in uses:
+                if not rs:
+                    continue
+                nl = fresh[find(sorted(rs)[0])]
+                if nl != x:
+                    for h in hit:
+                        h['l'] = nl
+            n_split += 1
+    return n_split
+
+
 def _guarded(j, notes, name, fn, default):
     """Run one normalisation step; if it crashes on an unforeseen MIR shape, put the facts back as they were and go
     on without it (the rules then see the un-normalised code, which can only make them more conservative)."""
@@ -2379,12 +2634,14 @@ def inline_unknown(j, known):
     consts_aliased = _guarded(j, notes, 'alias_consts', lambda: alias_consts(j), {})
     n_desugared = _guarded(j, notes, 'desugar_adaptors', lambda: desugar_adaptors(j), 0)
     n_then = _guarded(j, notes, 'desugar_bool_then_some', lambda: desugar_bool_then_some(j), 0)
+    n_then = (n_then or 0) + (_guarded(j, notes, 'desugar_enum_eq', lambda: desugar_enum_eq(j), 0) or 0)
     types_renamed = _guarded(j, notes, 'rename_types_back', lambda: rename_types_back(j, load_known_adts()), {})
     unwrapped = _guarded(j, notes, 'unwrap_known_wrappers', lambda: unwrap_known_wrappers(j, known), {})
     known, renamed = effective_known(j, known, forced=unwrapped)
     _guarded(j, notes, 'rename_back', lambda: rename_back(j, renamed), None)
     fields_renamed = _guarded(j, notes, 'rename_fields_back', lambda: rename_fields_back(j, load_known_adts()), {})
     res = _guarded(j, notes, 'inline_helpers', lambda: _inline_all(j, known), {'inlined': [], 'dropped': []})
+    res['webs_split'] = _guarded(j, notes, 'split_webs', lambda: split_webs(j), 0) if not os.environ.get('MRL_NO_WEB') else 0
     res['reads_forwarded'] = _guarded(j, notes, 'forward_aggregate_reads', lambda: forward_aggregate_reads(j), 0) if not os.environ.get('MRL_NO_FWD') else 0
     res['sroa'] = _guarded(j, notes, 'sroa', lambda: sroa(j), {}) if not os.environ.get('MRL_NO_SROA') else {}
     res['tails_split'] = _guarded(j, notes, 'split_tails', lambda: split_tails(j), [])
